@@ -23,7 +23,7 @@ if not os.path.exists(demo) and os.path.exists(os.path.join(progdir, "main.go"))
     pkg, tests, tags = "zz_demo%s" % i, ["main"], ""
     def rundemo():
         shutil.copytree(progdir, os.path.join(wt, pkg))
-        rc, o = sh(["go", "run", "./" + pkg], timeout=600)
+        rc, o = sh(["go", "run", "-tags", "verif", "./" + pkg], timeout=600)
         shutil.rmtree(os.path.join(wt, pkg))
         return rc, o
 else:
